@@ -490,7 +490,8 @@ type ScriptReader struct {
 	failed bool
 	Closed bool
 	// Delivered is what Read handed out so far.
-	Delivered int
+	Delivered  int
+	emptyReads int
 }
 
 func (r *ScriptReader) raw(b []byte) (int, error) {
